@@ -413,6 +413,17 @@ func cliCheck(res *sched.Result, w *cliWorld) (finds []explore.Finding, outcome 
 			}
 		}
 	}
+	// a handler that the agent calls from inside Process(d), for the transaction d names, is being handed d: whatever
+	// state the client is in (open, closing), the response that completes a transaction reaches its handler as the
+	// response, not as an error that happens to end the transaction at the same moment
+	for _, r := range w.log {
+		if r.Kind != "handler" || r.During == nil {
+			continue
+		}
+		if r.Err != nil || !bytes.Equal(r.Data, r.During) {
+			add("C12/response-replaced-by-error", "the handler of transaction instance #%d was called from inside Process of the response %x, and was given err=%v message=%x instead of that response; %s", r.Inst, clip(r.During), r.Err, clip(r.Data), w.logString())
+		}
+	}
 	if sc.Sequential {
 		// sequential histories: every decodable datagram delivered before any Close has been read; it must have
 		// reached the handler of the transaction that was in flight under its id, else the fallback handler (if set)
